@@ -465,6 +465,6 @@ def finish(ctx, err=None):
         print("UNDECIDED property=%s: %s" % (ctx.id, err), flush=True)
         return 2
     print("OK property=%s tier=%s seed=%d states=%d transitions=%d impl_traces=%d wall=%.1fs" % (
-        ctx.id, ctx.tier, ctx.seed, cov["states"], cov["transitions"],
+        ctx.id, ctx.tier, ctx.seed, cov.get("states", 0), cov.get("transitions", 0),
         cov["traces_validated_against_impl"], time.time() - ctx.t0), flush=True)
     return 0
